@@ -12,6 +12,24 @@ PREFIX = os.path.join(core.REPO, 'mpmath') + os.sep
 ATOMIC = {'_set_prec', '_set_dps', 'prec_to_dps', 'dps_to_prec', '__enter__', '__exit__'}
 
 
+_GETTERS = []
+
+
+def _getter_codes():
+    """code objects of the prec/dps property getters (the read half of `ctx.prec += n`): part of the precision primitives, like the setters"""
+    if not _GETTERS:
+        import mpmath
+        codes = set()
+        for ctx in (mpmath.mp, mpmath.iv, mpmath.fp):
+            for attr in ('prec', 'dps'):
+                prop = getattr(type(ctx), attr, None)
+                fget = getattr(prop, 'fget', None)
+                if fget is not None and hasattr(fget, '__code__'):
+                    codes.add(fget.__code__)
+        _GETTERS.append(codes)
+    return _GETTERS[0]
+
+
 class InjectedFault(Exception):
     pass
 
@@ -24,7 +42,7 @@ def _signature(frame):
         co = f.f_code
         fn = co.co_filename
         if fn.startswith(PREFIX):
-            if co.co_name in ATOMIC:
+            if co.co_name in ATOMIC or co in _getter_codes():
                 atomic = True
             sig.append((fn[len(PREFIX):], co.co_firstlineno, f.f_lasti))
         f = f.f_back
